@@ -16,6 +16,9 @@ def lazy_alloc(obj) -> Ref:
     return Ref(oid)
 
 
+CONTRACT_ASSUMES = set()      # (contracts file, line, function) of every State.assume executed from contract code in this process
+
+
 class OutOfSubset(Exception):
     """The function uses something the executor does not implement -> verdict UNDECIDED (exit 2)."""
 
@@ -104,6 +107,13 @@ class State:
         return o
 
     def assume(self, *conds):
+        # an assumption stated by a sidecar contract (summary / handler / setup code) is recorded with its source location, so that the
+        # evidence lists every assumed fact mechanically (assumed callee contracts, domain hygiene), not only the ones a contract author names
+        import sys as _sys
+        fr = _sys._getframe(1)
+        fn = fr.f_code.co_filename.replace("\\", "/")
+        if "/contracts/" in fn:
+            CONTRACT_ASSUMES.add((fn.split("/contracts/")[-1], fr.f_lineno, fr.f_code.co_name))
         for c in conds:
             if c is True:
                 continue
